@@ -47,9 +47,11 @@ func convertReflectValueToTypeContext(ctx context.Context, rv reflect.Value, rt 
 		// if reflect.Type is interface or the types match, return the provided reflect.Value
 		return rv, nil
 	}
-	if rv.Type().ConvertibleTo(rt) && !(rv.Kind() == reflect.Slice && rt.Kind() == reflect.Array && rv.Len() < rt.Len()) {
+	if rv.Type().ConvertibleTo(rt) && !(rv.Kind() == reflect.Slice && rt.Kind() == reflect.Array && rv.Len() < rt.Len()) &&
+		!(rv.Kind() == reflect.Slice && rt.Kind() == reflect.Ptr && rt.Elem().Kind() == reflect.Array && rv.Len() < rt.Elem().Len()) {
 		// if reflect can covert, do that conversion and return
-		// (a slice shorter than the array is converted element by element below, reflect would panic)
+		// (a slice shorter than the array is converted element by element below, reflect would panic;
+		// a pointer to an array longer than the slice cannot be made at all)
 		return rv.Convert(rt), nil
 	}
 	if (rv.Kind() == reflect.Slice || rv.Kind() == reflect.Array) &&
